@@ -11,6 +11,7 @@ RULE = ("complex / real input fields (1 and 2 polarisations, with and without no
 ASSUMPTIONS = ["drives are noise-free electrical signals (only the .signal of a drive is specified to matter)",
                "laser spectral-peak clause asserted only without phase noise (a random-walk phase legitimately moves the peak bin)"]
 MIN_CHECKS = {"mzm.post": 500, "pm.post": 300, "laser.post": 100, "mzm.relations": 100, "pm.compose": 100}
+SHARDS = {"quick": 4}
 
 D = T = None
 
